@@ -152,6 +152,16 @@ type Session struct {
 	assumptions []string
 	exhaustive  bool
 	ended       bool
+	probe       bool // probe sessions ignore the known list and write nothing
+}
+
+// BeginProbe opens a session for re-running a committed reproduction: failures
+// are reported to the Failer whatever the known list says, and End writes no
+// evidence and no replay file.
+func BeginProbe(t testing.TB, id, sub string) *Session {
+	s := Begin(t, id, sub, "")
+	s.probe = true
+	return s
 }
 
 // Begin opens a session. Always `defer s.End()` right after.
@@ -283,6 +293,9 @@ func (s *Session) Fail(f Failer, c any, sig, format string, args ...any) {
 }
 
 func (s *Session) isKnownLocked(sig string) (Known, bool) {
+	if s.probe {
+		return Known{}, false
+	}
 	for _, k := range LoadKnown() {
 		if k.Property == s.ID && k.Sig == sig {
 			return k, true
@@ -367,7 +380,7 @@ type fragment struct {
 func (s *Session) End() {
 	s.mu.Lock()
 	defer s.mu.Unlock()
-	if s.ended {
+	if s.ended || s.probe {
 		return
 	}
 	s.ended = true
